@@ -163,8 +163,13 @@ func RunDaemon() {
 		signal.Notify(sig, os.Interrupt, syscall.SIGTERM, syscall.SIGINT)
 
 		g.Add(func() error {
-			<-sig
-			ui.Info("Received SIGTERM signal, exiting...")
+			select {
+			case <-sig:
+				ui.Info("Received SIGTERM signal, exiting...")
+			case <-ctx.Done():
+				// another actor returned first: the channel is no longer closed on
+				// interruption, so this actor has to notice the cancellation itself
+			}
 			return nil
 		}, func(err error) {
 			// sig stays registered with signal.Notify until the process exits: closing it here
